@@ -181,6 +181,8 @@ func (p *instancePool) warmUpGun(ctx context.Context) error {
 }
 
 type poolAsyncRunHandle struct {
+	// poolCtx is done when pool Run returned (or was canceled), that is nobody awaits run errors.
+	poolCtx             context.Context
 	runCtx              context.Context
 	runCancel           context.CancelFunc
 	instanceStartCtx    context.Context
@@ -193,9 +195,9 @@ type poolAsyncRunHandle struct {
 	runRes chan instanceRunResult
 }
 
-func (p *instancePool) runAsync(runCtx context.Context) (*poolAsyncRunHandle, error) {
+func (p *instancePool) runAsync(poolCtx context.Context) (*poolAsyncRunHandle, error) {
 	// Canceled in case all instances finish, fail or run runCancel.
-	runCtx, runCancel := context.WithCancel(runCtx)
+	runCtx, runCancel := context.WithCancel(poolCtx)
 	_ = runCancel
 	// Canceled also on out of ammo, and finish of shared RPS schedule.
 	instanceStartCtx, instanceStartCancel := context.WithCancel(runCtx)
@@ -225,6 +227,7 @@ func (p *instancePool) runAsync(runCtx context.Context) (*poolAsyncRunHandle, er
 		startRes <- startResult{started, err}
 	}()
 	return &poolAsyncRunHandle{
+		poolCtx:             poolCtx,
 		runCtx:              runCtx,
 		runCancel:           runCancel,
 		instanceStartCtx:    instanceStartCtx,
@@ -320,10 +323,12 @@ func (ah *runAwaitHandle) awaitRun() {
 }
 
 func (ah *runAwaitHandle) onErrAwaited(err error) {
+	// Run context is canceled when all instances are finished too, but pool Run still awaits
+	// provider and aggregator results then: their errors should not be lost.
 	select {
 	case ah.awaitErr <- err:
-	case <-ah.runCtx.Done():
-		if err != ah.runCtx.Err() {
+	case <-ah.poolCtx.Done():
+		if err != ah.poolCtx.Err() {
 			ah.log.Debug("Error suppressed after run cancel", zap.Error(err))
 		}
 	}
